@@ -34,6 +34,8 @@ class Harness:
     check_defined = True
     cost = 1.0
     mod_mode = None      # "fork" | "disj" (None: engine default); how `x % period` is encoded
+    angle_axioms = False  # arccos/arctan2 constrained by their defining relations (default: functional consistency)
+    trig_identity = True  # sin^2+cos^2=1 per argument term
     exact_validation = True
 
     def configs(self, tier):
@@ -164,6 +166,8 @@ def _run_task(hmod, hname, cfg, tier, seed, t0):
     loader.start_monitor()
     if h.mod_mode:
         core.MOD_MODE = h.mod_mode
+    core.ANGLE_AXIOMS = bool(h.angle_axioms)
+    core.TRIG_IDENTITY = bool(h.trig_identity)
     L = loader.Loaded(overrides=h.overrides(cfg))
 
     def fn():
